@@ -1,6 +1,6 @@
-CONSTANTS Graphs = {"line", "tri", "dead", "selfl", "pair"} T = 3 QE = {0, 1, 2, 3} QN = {0, 1, 2} NodeModes = {TRUE, FALSE} NEs = {FALSE}
-  Widths = {0, 1, 2} Cuts = {"none", "dist", "init", "prob", "both"} MaxOps = 1 SAMPLE = 6 Moves = {"m11", "m00"} EMIT = FALSE
+CONSTANTS Graphs = {"line", "tri", "dead", "selfl", "pair"} T = 3 QE = {0, 1, 2, 3} QN = {0, 1, 2} NodeModes = {TRUE, FALSE} NEs = {TRUE, FALSE}
+  Widths = {0, 1, 2} Cuts = {"none", "dist", "init", "prob", "both"} MaxOps = 1 SAMPLE = 2 Moves = {"m11", "m00"} EMIT = FALSE
   ExhGraphs = {} Debugs = {FALSE}
 SPECIFICATION Spec
-INVARIANT C19scoped
+INVARIANT C19all
 CHECK_DEADLOCK FALSE
